@@ -561,4 +561,19 @@ Proof.
   destruct (clause_scan_cand c _ r cands _ _ _ Hk Hw Hs) as [_ [_ Hu]]. exact Hu.
 Qed.
 
+(* what decide proposes is a literal of the clause it names *)
+Theorem decide_lit_in d :
+  decide U act_ge db pa = Some (Some d) ->
+  exists c, nth_error db (N.to_nat (pd_clause d)) = Some c /\ In (VSol (pd_cand d), true) (cl_lits c).
+Proof.
+  intro H. unfold decide in H.
+  destruct (dec_groups_spec _ _ _ H (groups_ok_db db)) as [A _].
+  assert (Hd : pd_ok d) by (apply A; [intros d0 E; discriminate E | reflexivity]).
+  destruct Hd as [c [r [cands [vs [Hn [Hk [Hs [He Hp]]]]]]]].
+  assert (Hw : req_wf U c = true) by (apply Hwf; eapply nth_error_In; exact Hn).
+  destruct (clause_scan_cand c _ r cands _ _ _ Hk Hw Hs) as [_ [Hf _]].
+  exists c. split; [exact Hn|]. rewrite (wf_lits c _ r cands Hk Hw). right.
+  unfold first_nonfalse in Hf. apply find_some in Hf. destruct Hf as [Hin _]. exact Hin.
+Qed.
+
 End Proofs.
